@@ -289,6 +289,29 @@ class C16(Prop):
             if r.random() < 0.85:
                 k, f, well = self.mutate(r, k, f, kinds)
             dec.append({"kind": k, "well": well, "tree": ("o", [("tags", ("a", [("o", f)]))])})
+        # boundary stream (always run): every combination of the fields that the kinds' decoders branch on, around their edges
+        import itertools
+        for disp, code, sig in itertools.product([None, "success", "error", "signal", "stop", "exception", "continued", "unknown"],
+                                                 [None, ("n", 0), ("n", 1), ("n", -1), ("z",)],
+                                                 [None, ("s", "SIGINT"), ("n", 0), ("n", 9), ("z",)]):
+            f = [("kind", ("s", "completion"))]
+            if disp:
+                f.append(("disposition", ("s", disp)))
+            if code:
+                f.append(("code", code))
+            if sig:
+                f.append(("signal", sig))
+            dec.append({"kind": "completion", "well": True, "tree": ("o", [("tags", ("a", [("o", f)]))])})
+        for kind, fld, vals in [("process", "pid", [None, ("n", 0), ("n", 1), ("n", (1 << 32) - 1), ("z",)]),
+                                ("signal", "signal", [None, ("n", 0), ("n", 9), ("n", 15), ("n", 64), ("s", "SIGKILL"), ("s", "KILL"), ("z",)]),
+                                ("keyboard", "keycode", [None, ("s", "eof"), ("z",)]),
+                                ("source", "source", [None, ("s", "filesystem"), ("s", "os"), ("z",)]),
+                                ("path", "absolute", [None, ("s", "/a"), ("s", ""), ("z",)]),
+                                ("fs", "simple", [None, ("s", "modify"), ("s", "other"), ("z",)])]:
+            for v in vals:
+                f = [("kind", ("s", kind))] + ([(fld, v)] if v else [])
+                # (serde accepts only the SIG-prefixed spelling of a signal name: a bare "KILL" is an ill-typed value)
+                dec.append({"kind": kind, "well": v != ("s", "KILL"), "tree": ("o", [("tags", ("a", [("o", f)]))])})
         # event-level malformed
         for tree in [("o", []), ("o", [("metadata", ("o", [("b", ("a", [("s", "x")])), ("a", ("a", [])), ("b", ("a", []))]))]),
                      ("o", [("tags", ("z",))]), ("o", [("metadata", ("z",))]), ("o", [("tags", ("a", [])), ("tags", ("a", []))]),
@@ -348,6 +371,16 @@ class C16(Prop):
                     if len(tags) != 1 or tags[0].get("kind") not in (x["kind"], "none"):
                         c.failing.append({"case": jtext(x["tree"]), "impl": o["obs"],
                                           "clause": "C16_malformed_total: parsed to a tag of another kind"})
+                    elif tags[0].get("kind") == "completion":
+                        # the discriminating field: a completion of another disposition is another tag
+                        try:
+                            fields = dict((n, v) for n, v in x["tree"][1][0][1][1][0][1])
+                        except Exception:
+                            fields = {}
+                        d = fields.get("disposition")
+                        if d and d[0] == "s" and tags[0].get("disposition") != d[1]:
+                            c.failing.append({"case": jtext(x["tree"]), "impl": o["obs"],
+                                              "clause": "C16_malformed_total: contradictory completion fields parsed to a completion of another disposition instead of the unknown tag"})
         c.evaluations += 1
         impl_k = "[" + ",".join(k["debug"] + "=" + k["json"] for k in kind_obs) + "]"
         if impl_k == res[-1]:
